@@ -215,7 +215,8 @@ def run(idx: Index, rep: Report, tier: str) -> None:
     rule3 = "C08.3 T7 pipeline-consumes-what-stages-return"
     pc = idx.func("engines.compilers.compilers_pipeline.CompilersPipeline.compile")
     rep.note_function(pc.qualname)
-    consumed = {n.attr for n in walk_no_nested(pc.node) if isinstance(n, ast.Attribute) and norm(n.value) == "res" and n.attr in ("map_back_action_instance", "plan_back_conversion")}
+    stage_results = {norm(a.targets[0]) for a in walk_no_nested(pc.node) if isinstance(a, ast.Assign) and isinstance(a.value, ast.Call) and call_name(a.value) in ("compile", "_compile")}
+    consumed = {n.attr for n in walk_no_nested(pc.node) if isinstance(n, ast.Attribute) and norm(n.value) in stage_results and n.attr in ("map_back_action_instance", "plan_back_conversion")}
     if not consumed:
         raise AnalysisError("anchor vanished: CompilersPipeline.compile no longer reads res.map_back_action_instance / plan_back_conversion")
     mixin = idx.cls("engines.mixins.compiler.CompilerMixin")
